@@ -9,11 +9,14 @@ from engine.common import ok, open_findings, RecLogger, no_tracing
 
 PART = {}
 
+import harness.c04_repair as _C04      # noqa: E402  (shared RepairGraph harness; imported outside tracing)
+
 META = {
     'engine': 'E1 CrossHair 0.0.110 + z3',
     'functions': ['vermouth.processors.annotate_mut_mod.parse_residue_spec', 'residue_matches', '_terminal_matches',
                   '_subdict', '_resiter', 'annotate_modifications', 'AnnotateMutMod.run_system', 'AnnotateMutMod.run_molecule',
-                  'vermouth.graph_utils.make_residue_graph (flow harness)'],
+                  'vermouth.graph_utils.make_residue_graph (flow harness)',
+                  'vermouth.processors.repair_graph.RepairGraph / _get_reference_residue / _patch_modification (requested modifications)'],
     'bounds': {
         'quick': 'parser: chain len<=2, residue name len<=3 (ASCII letters/digits), number in windows of integers; matcher: '
                  'residue graphs linear-3 / star-4 / single / non-protein with all residue numbers and the requested '
@@ -26,7 +29,7 @@ META = {
                     'specification alphabet: ASCII letters and digits; chain has no "-", residue name no "#"',
                     'matcher harness builds the residue graph directly (make_residue_graph hashes residue identity); the '
                     'flow harness runs make_residue_graph on concrete residue identities'],
-    'outside': ['RepairGraph consuming the marks (see C04)', 'insertion codes in specifications (the grammar has none)'],
+    'outside': ['mutations consumed by RepairGraph (only requested modification lists are encoded, via the C04 harness)', 'insertion codes in specifications (the grammar has none)'],
 }
 
 
@@ -344,9 +347,22 @@ def check_flow(k0: int, n0: int, c0: int, t0: int, r0: int, k1: int, n1: int, c1
     return ok()
 
 
+def check_requested(name: str) -> str:
+    """
+    pre: 1 <= len(name) <= 2
+    post: _ == ''
+    """
+    # last clause of the property: after repair the marked residue has the atoms of the requested modification, surplus
+    # atoms removed; 'none' entries are no-ops.  Shares the RepairGraph harness of C04 (ISMAGS native under NoTracing).
+    _C04.PART = PART
+    return _C04.requested_impl(name)
+
+
 def warmup():
     global PART
     saved = PART
+    import harness.c04_repair as c04
+    c04.warmup()
     PART = {'chain': True, 'number': True, 'namelen': 3, 'lo': 0, 'hi': 50}
     check_parse_hash('A', 'LY5', 12)
     PART = {'chain': True, 'namelen': 3, 'lo': 0, 'hi': 50}
@@ -419,6 +435,11 @@ def cases(tier):
                                              'res': res},
                                     'label': 'matcher[%s %s c%d r%d n%d res%d]' % (graph, kind, chain, resid, resname, res),
                                     'timeout': 300, 'path_timeout': 30, 'twin': graph == 'lin3' and res == 0})
+    import harness.c04_repair as c04
+    for req in range(1, len(c04.REQUESTS)):
+        # the surplus atom carries the symbolic name; the vacuity twin of this function lives in the C04 check
+        out.append({'fn': 'check_requested', 'part': {'request': req, 'with_methyl': True},
+                    'label': 'repair-requested[%s]' % (c04.REQUESTS[req],), 'timeout': 900, 'path_timeout': 60, 'twin': False})
     for k in (0, 1):
         for n in range(-1, len(RESNAMES)):
             for c in range(-1, len(CHAINS)):
